@@ -332,6 +332,7 @@ class Fold(ast.NodeTransformer):
         self.ctx = ctx
         self.changed = False
         self.counter = 0
+        self.shadowed = set()       # builtin names re-bound in the function being folded
 
     def is_partial(self, f):
         part, _, mods = self.ctx
@@ -452,6 +453,27 @@ class Fold(ast.NodeTransformer):
                 if f.id == 'list':
                     return self.hit(self.visit(ast.ListComp(elt=elt, generators=gen)), node)
                 return self.hit(ast.Call(func=f, args=[self.visit(ast.GeneratorExp(elt=elt, generators=gen))], keywords=[]), node)
+            if f.id == 'filter' and len(node.args) == 2 and not node.keywords and isinstance(node.args[0], (ast.Lambda, ast.Name, ast.Attribute, ast.Constant)) and 'filter' not in self.shadowed:
+                self.counter += 1
+                v = 'f%d__v' % self.counter
+                fn_ = node.args[0]
+                if isinstance(fn_, ast.Constant) and fn_.value is None:
+                    cond = ast.Name(id=v, ctx=ast.Load())
+                elif isinstance(fn_, ast.Constant):
+                    cond = None
+                else:
+                    cond = ast.Call(func=fn_, args=[ast.Name(id=v, ctx=ast.Load())], keywords=[])
+                if cond is not None:
+                    gen = [ast.comprehension(target=ast.Name(id=v, ctx=ast.Store()), iter=node.args[1], ifs=[cond], is_async=0)]
+                    return self.hit(self.visit(ast.GeneratorExp(elt=ast.Name(id=v, ctx=ast.Load()), generators=gen)), node)
+            if f.id == 'map' and len(node.args) >= 2 and not node.keywords and isinstance(node.args[0], (ast.Lambda, ast.Name, ast.Attribute)) and 'map' not in self.shadowed \
+                    and not any(isinstance(a, ast.Starred) for a in node.args):
+                self.counter += 1
+                vs = ['m%d__%d' % (self.counter, i) for i in range(len(node.args) - 1)]
+                it = node.args[1] if len(vs) == 1 else ast.Call(func=ast.Name(id='zip', ctx=ast.Load()), args=list(node.args[1:]), keywords=[])
+                tgt = ast.Name(id=vs[0], ctx=ast.Store()) if len(vs) == 1 else ast.Tuple(elts=[ast.Name(id=x, ctx=ast.Store()) for x in vs], ctx=ast.Store())
+                elt = ast.Call(func=node.args[0], args=[ast.Name(id=x, ctx=ast.Load()) for x in vs], keywords=[])
+                return self.hit(self.visit(ast.GeneratorExp(elt=elt, generators=[ast.comprehension(target=tgt, iter=it, ifs=[], is_async=0)])), node)
             if f.id in ('any', 'all') and len(node.args) == 1 and not node.keywords and isinstance(node.args[0], (ast.GeneratorExp, ast.ListComp, ast.Tuple, ast.List)):
                 a0 = node.args[0]
                 from .normalize import UnrollComp
@@ -1327,6 +1349,26 @@ def _record_dicts(fn):
 _RECORDS = {}
 
 
+def _later_in_same_block(fn, stmt, nodes):
+    """every node of `nodes` sits in a statement that follows `stmt` in the very block that holds `stmt` (so `stmt` has run, in the same iteration, before any of them)"""
+    for n in ast.walk(fn):
+        for fld in ('body', 'orelse', 'finalbody'):
+            blk = getattr(n, fld, None)
+            if isinstance(blk, list) and any(x is stmt for x in blk):
+                i = [j for j, x in enumerate(blk) if x is stmt][0]
+                later = set()
+                for st in blk[i + 1:]:
+                    for y in ast.walk(st):
+                        later.add(id(y))
+                return all(id(u) in later for u in nodes)
+        if isinstance(n, ast.Try):
+            for h in n.handlers:
+                if any(x is stmt for x in h.body):
+                    i = [j for j, x in enumerate(h.body) if x is stmt][0]
+                    later = {id(y) for st in h.body[i + 1:] for y in ast.walk(st)}
+                    return all(id(u) in later for u in nodes)
+    return False
+
 def _record_classes(tree):
     """record classes of this module: NamedTuple / @dataclass classes with annotated fields only, and namedtuple(...) factories -> {name: (fields, defaults, kind)}"""
     out = {}
@@ -1430,7 +1472,9 @@ def _record_objects(fn):
             continue
         if val.func.id in info.counts or val.func.id in info.params:
             continue
-        if not info.single(name) or info.order.get(id(asg)) is None or info.loops.get(id(asg), True):
+        if not info.single(name) or info.order.get(id(asg)) is None:
+            continue
+        if info.loops.get(id(asg), True) and not _later_in_same_block(fn, asg, [n for n in ast.walk(fn) if isinstance(n, ast.Name) and n.id == name and n is not asg.targets[0]]):
             continue
         fields, defaults, kind = _RECORDS[val.func.id]
         if any(isinstance(a, ast.Starred) for a in val.args) or any(k.arg is None for k in val.keywords) or len(val.args) > len(fields):
@@ -2789,6 +2833,36 @@ def _globals_subscripts(fn):
     return True
 
 
+def _loop_target_aliases(fn):
+    """for .. t ..: ... x = t ...     (t bound only as that loop target, x bound only by that copy, every read of x follows the copy inside the loop)   ->   one variable"""
+    info = _FnInfo(fn)
+    for loop in [n for n in ast.walk(fn) if isinstance(n, ast.For)]:
+        tnames = {y.id for y in ast.walk(loop.target) if isinstance(y, ast.Name)}
+        for asg in [n for st in loop.body for n in ast.walk(st) if isinstance(n, ast.Assign)]:
+            if not (len(asg.targets) == 1 and isinstance(asg.targets[0], ast.Name) and isinstance(asg.value, ast.Name) and asg.value.id in tnames):
+                continue
+            x, t = asg.targets[0].id, asg.value.id
+            if x == t or info.counts.get(t, 0) != 1 or info.counts.get(x, 0) != 1 or x in info.params or t in info.params:
+                continue
+            if any(isinstance(y, (ast.FunctionDef, ast.Lambda, ast.ClassDef)) for y in ast.walk(loop)):
+                continue
+            xs = [y for y in ast.walk(fn) if isinstance(y, ast.Name) and y.id == x and y is not asg.targets[0]]
+            if not _later_in_same_block(fn, asg, xs):
+                continue
+            # the copy must not sit in an inner loop of `loop` where t could be... t is only bound by `loop` itself: fine
+            if '__' in x and '__' not in t:
+                keep, drop = t, x
+            else:
+                keep, drop = x, t
+            for y in ast.walk(fn):
+                if isinstance(y, ast.Name) and y.id == drop:
+                    y.id = keep
+            _remove_stmt(fn, asg)
+            ast.fix_missing_locations(fn)
+            return True
+    return False
+
+
 def _forward_temps(fn):
     """t = E ; TARGET = t      ->  TARGET = E        (adjacent statements; t bound once and read once - by that copy; TARGET may be a global, an
     attribute or a subscript whose own sub-expressions are effect free)"""
@@ -2902,9 +2976,11 @@ def _coalesce_copies(fn):
 
 def simplify_function(fn, ctx, inliner, cls):
     changed_any = False
-    for _ in range(40):
+    for _it in range(40):
         changed = False
         f = Fold(ctx)
+        f.shadowed = {x.id for x in ast.walk(fn) if isinstance(x, ast.Name) and isinstance(x.ctx, ast.Store)} | {a.arg for a in ast.walk(fn) if isinstance(a, ast.arg)}
+        f.counter = _it * 100
         f.visit(fn)
         changed |= f.changed
         changed |= _prune_ifs(fn)
@@ -2932,6 +3008,8 @@ def simplify_function(fn, ctx, inliner, cls):
         elif _forward_temps(fn):
             changed = True
         elif _adjacent_copies(fn):
+            changed = True
+        elif _loop_target_aliases(fn):
             changed = True
         elif _generated_lists(fn):
             changed = True
@@ -2962,6 +3040,8 @@ def lower_module(tree, inliner, extra_passes=()):
         before = ast.dump(tree)
         module_consts(tree)
         inliner.run()
+        if getattr(inliner, 'after_run', None) is not None:
+            inliner.after_run()
         for n in tree.body:
             if isinstance(n, ast.FunctionDef):
                 _simplify_tree(n, ctx, inliner, None)
